@@ -8,7 +8,59 @@ from vlib import log, SPEC, H2TV
 COV_RE = re.compile(r'<(\w+) line \d+, col \d+ to line \d+, col \d+ of module (\w+)>: (\d+):(\d+)')
 
 
+def _cache_key(mc, tier, seed):
+    """Model checking reads the specification and the concretiser only - never the library - so its result is a
+    function of those files; several properties share configurations (MC_Table_thorough: 12 M states, 7 min)."""
+    import hashlib, glob
+    h = hashlib.sha256()
+    files = sorted(glob.glob(os.path.join(SPEC, '**', '*.tla'), recursive=True) + glob.glob(os.path.join(SPEC, '**', '*.cfg'), recursive=True)
+                   + glob.glob(os.path.join(vlib.ROOT, 'harness', 'src', '*.rs')) + [os.path.join(vlib.ROOT, 'bin', x) for x in ('mcrun.py', 'vlib.py')])
+    for p in files:
+        h.update(p.encode())
+        with open(p, 'rb') as f:
+            h.update(hashlib.sha256(f.read()).digest())
+    h.update(json.dumps([mc, tier, seed if (mc.get('simulate') or {}).get(tier) else 0], sort_keys=True, default=str).encode())
+    return h.hexdigest()[:32]
+
+
 def run_mc(prop, mc, tier, wd, seed):
+    import shutil
+    cdir = os.path.join(vlib.WORK, 'mc_cache', _cache_key(mc, tier, seed))
+    cfgname = mc['cfg'][tier]
+    if os.path.exists(os.path.join(cdir, 'info.json')) and not os.environ.get('VERIF_NO_MC_CACHE'):
+        info = json.load(open(os.path.join(cdir, 'info.json')))
+        if info.get('cases'):
+            dst = os.path.join(wd, '%s.cases' % cfgname)
+            shutil.copyfile(os.path.join(cdir, 'cases'), dst)
+            info['cases'] = dst
+        info['summary']['reused'] = 'result of an earlier run with identical specification, configuration and concretiser (work/mc_cache)'
+        log('[mc] %s %s: %d distinct states, %d behaviours (reused: specification and configuration unchanged since a run of %.1fs)' %
+            (mc['module'], cfgname, info['distinct'], info['behaviours'], info['summary']['wall_s']))
+        return info
+    info = run_mc_fresh(prop, mc, tier, wd, seed)
+    try:
+        # entries of specifications that no longer exist: out after half a day
+        base = os.path.dirname(cdir)
+        if os.path.isdir(base):
+            for d in os.listdir(base):
+                p = os.path.join(base, d)
+                if time.time() - os.path.getmtime(p) > 12 * 3600:
+                    shutil.rmtree(p, ignore_errors=True)
+        tmp = cdir + '.tmp%d' % os.getpid()
+        os.makedirs(tmp, exist_ok=True)
+        if info.get('cases'):
+            shutil.copyfile(info['cases'], os.path.join(tmp, 'cases'))
+        json.dump(info, open(os.path.join(tmp, 'info.json'), 'w'))
+        if os.path.exists(cdir):
+            shutil.rmtree(tmp)
+        else:
+            os.rename(tmp, cdir)
+    except OSError:
+        pass
+    return info
+
+
+def run_mc_fresh(prop, mc, tier, wd, seed):
     module = mc['module']
     cfg = mc['cfg'][tier]
     t0 = time.time()
